@@ -17,48 +17,48 @@ import GormModel.Gen.CondKeyFacts
 namespace Gorm
 
 /-- the model value in memory: db column ↦ value (0 = the Go zero value) -/
-abbrev KRec := List (String × Int)
+abbrev UpdRec := List (String × Int)
 
-def KRec.get (m : KRec) (c : String) : Int :=
+def UpdRec.get (m : UpdRec) (c : String) : Int :=
   match m with
   | [] => 0
-  | p :: r => if p.1 = c then p.2 else KRec.get r c
+  | p :: r => if p.1 = c then p.2 else UpdRec.get r c
 
 /-- `field.Set(ctx, stmt.ReflectValue, value)` — only columns that are fields of the model -/
-def KRec.set (m : KRec) (c : String) (v : Int) : KRec :=
+def UpdRec.set (m : UpdRec) (c : String) (v : Int) : UpdRec :=
   match m with
   | [] => []
-  | p :: r => if p.1 = c then (c, v) :: r else p :: KRec.set r c v
+  | p :: r => if p.1 = c then (c, v) :: r else p :: UpdRec.set r c v
 
 /-- the key block, struct case: one `Eq` per NON-ZERO primary field of the value -/
-def keyConds (pks : List String) (m : KRec) : List (String × Int) :=
+def updKeyConds (pks : List String) (m : UpdRec) : List (String × Int) :=
   (pks.map (fun k => (k, m.get k))).filter (fun p => p.2 != 0)
 
-def assignAll (m : KRec) (sets : List (String × Int)) : KRec :=
+def updAssignAll (m : UpdRec) (sets : List (String × Int)) : UpdRec :=
   sets.foldl (fun acc p => acc.set p.1 p.2) m
 
 structure UpdOut where
   conds : List (String × Int)    -- WHERE conditions added for the model value's key
   set : List (String × Int)      -- the SET list
-  after : KRec                   -- the model value after the call
+  after : UpdRec                   -- the model value after the call
 deriving DecidableEq, Repr
 
-def convertToAssignments (keyFirst : Bool) (pks : List String) (m : KRec) (sets : List (String × Int)) : UpdOut :=
-  if keyFirst then { conds := keyConds pks m, set := sets, after := assignAll m sets }
+def updConvertToAssignments (keyFirst : Bool) (pks : List String) (m : UpdRec) (sets : List (String × Int)) : UpdOut :=
+  if keyFirst then { conds := updKeyConds pks m, set := sets, after := updAssignAll m sets }
   else
-    let m' := assignAll m sets
-    { conds := keyConds pks m', set := sets, after := m' }
+    let m' := updAssignAll m sets
+    { conds := updKeyConds pks m', set := sets, after := m' }
 
 /-! ### what the UPDATE does to a table (reference semantics: `UPDATE t SET sets WHERE conds`, all conds AND-ed) -/
 
-def rowMatches (conds : List (String × Int)) (r : KRec) : Bool := conds.all (fun p => r.get p.1 == p.2)
+def updRowMatches (conds : List (String × Int)) (r : UpdRec) : Bool := conds.all (fun p => r.get p.1 == p.2)
 
-def applyUpdate (conds sets : List (String × Int)) (tbl : List KRec) : List KRec :=
-  tbl.map (fun r => if rowMatches conds r then assignAll r sets else r)
+def updApplyUpdate (conds sets : List (String × Int)) (tbl : List UpdRec) : List UpdRec :=
+  tbl.map (fun r => if updRowMatches conds r then updAssignAll r sets else r)
 
 /-- the whole call on a table -/
-def updateThroughModel (keyFirst : Bool) (pks : List String) (m : KRec) (sets : List (String × Int)) (tbl : List KRec) : List KRec :=
-  let o := convertToAssignments keyFirst pks m sets
-  applyUpdate o.conds o.set tbl
+def updateThroughModel (keyFirst : Bool) (pks : List String) (m : UpdRec) (sets : List (String × Int)) (tbl : List UpdRec) : List UpdRec :=
+  let o := updConvertToAssignments keyFirst pks m sets
+  updApplyUpdate o.conds o.set tbl
 
 end Gorm
